@@ -183,7 +183,13 @@ class TypeObject:
                         if not isinstance(subresult, CanAssignError):
                             result = subresult
                             break
-            if not isinstance(result, CanAssignError):
+            # A result obtained while another pair is assumed to be compatible may
+            # depend on that assumption (mutually recursive protocols), so only
+            # cache it at the top level.
+            if (
+                not isinstance(result, CanAssignError)
+                and not ctx.has_assumed_compatibilities()
+            ):
                 self._protocol_positive_cache[cache_key] = result
             return result
 
